@@ -73,7 +73,9 @@ structure RInv (b0 : Buf) (s : St) : Prop where
   w : s.w = false
   mem : s.b.mem = b0.mem
   len : s.b.len = b0.len
-  ri : s.b.ri = b0.ri
+  /-- without `data.ptr` nothing moves (with it, `meta.ri` is rewritten from `iop` on every exit and
+  around every call that passes the argument on, so its value in between does not matter) -/
+  ri : s.b.hasPtr = false → s.b.ri = b0.ri
   hp : s.b.hasPtr = b0.hasPtr
   io1 : s.io1 = b0.ri
   lo : s.io1 ≤ s.iop
@@ -138,6 +140,23 @@ theorem runI_RInv (b0 : Buf) (is : List Instr) (s : St) (h : RInv b0 s) : RInv b
   | nil => exact h
   | cons i r ih => exact ih _ (exec_RInv b0 s i h)
 
+/-- From the reader invariant to the caller-visible contract. -/
+theorem reader_final (b0 : Buf) (hv : b0.valid) (s : St) (h : RInv b0 s) :
+    (finalSave s).valid ∧ b0.ri ≤ (finalSave s).ri ∧ (finalSave s).mem = b0.mem ∧
+    (finalSave s).len = b0.len ∧ (finalSave s).wi ≤ b0.wi := by
+  obtain ⟨hw, hmem, hlen, hri, hhp, hio1, hlo, hhi, hwi, hch⟩ := h
+  have hle := hch.le
+  have hml : s.b.mem.length = b0.mem.length := by rw [hmem]
+  obtain ⟨h1, h2, h3, h4⟩ := hv
+  unfold finalSave
+  cases hp : b0.hasPtr
+  · have hr := hri (by rw [hhp, hp])
+    simp only [hhp, hp, Bool.not_false, ↓reduceIte, Buf.valid]
+    have := h4 hp
+    refine ⟨⟨?_, ?_, ?_, fun _ => by omega⟩, ?_, hmem, hlen, ?_⟩ <;> omega
+  · simp only [hhp, hp, Bool.not_true, Bool.false_eq_true, ↓reduceIte, hw, Buf.valid]
+    refine ⟨⟨?_, ?_, ?_, ?_⟩, ?_, hmem, hlen, ?_⟩ <;> first | omega | simp
+
 /-- **iobuf_inv, source side.** For a valid source buffer and every body (and every exit point of
 it) built from the modelled reader operations and `io_limit` blocks: afterwards `ri ≤ wi ≤ len`, the
 read index did not move backwards, no byte changed, `len` did not change and `wi` did not grow (it is
@@ -148,17 +167,7 @@ theorem iobuf_inv_reader (b0 : Buf) (hv : b0.valid) (is : List Instr) :
     (callIO false b0 is).mem = b0.mem ∧ (callIO false b0 is).len = b0.len ∧
     (callIO false b0 is).wi ≤ b0.wi := by
   have h := runI_RInv b0 is _ (load_RInv b0 hv)
-  obtain ⟨hw, hmem, hlen, hri, hhp, hio1, hlo, hhi, hwi, hch⟩ := h
-  have hle := hch.le
-  have hml : (runI (load false b0) is).b.mem.length = b0.mem.length := by rw [hmem]
-  obtain ⟨h1, h2, h3, h4⟩ := hv
-  unfold callIO finalSave
-  cases hp : b0.hasPtr
-  · simp only [hhp, hp, Bool.not_false, ↓reduceIte, Buf.valid]
-    have := h4 hp
-    refine ⟨⟨?_, ?_, ?_, fun _ => by omega⟩, ?_, hmem, hlen, ?_⟩ <;> omega
-  · simp only [hhp, hp, Bool.not_true, Bool.false_eq_true, ↓reduceIte, hw, Buf.valid]
-    refine ⟨⟨?_, ?_, ?_, ?_⟩, ?_, hmem, hlen, ?_⟩ <;> first | omega | simp
+  exact reader_final b0 hv _ h
 
 /-! ### writer -/
 
@@ -168,8 +177,12 @@ structure WInv (b0 : Buf) (s : St) : Prop where
   memlen : s.b.mem.length = b0.mem.length
   below : ∀ i, i < b0.wi → s.b.mem[i]? = b0.mem[i]?
   ri : s.b.ri = b0.ri
-  wi : s.b.wi = b0.wi
+  /-- as for the reader's `ri` -/
+  wi : s.b.hasPtr = false → s.b.wi = b0.wi
   hp : s.b.hasPtr = b0.hasPtr
+  closed : s.b.closed = b0.closed
+  /-- an open writer's `data.len` is what `io2` points at (an `io_limit` block shortens both) -/
+  sync : b0.closed = false → s.b.len = s.io2
   io1 : s.io1 = b0.wi
   lo : s.io1 ≤ s.iop
   hi : s.iop ≤ s.io2
@@ -183,11 +196,11 @@ theorem load_WInv (b0 : Buf) (hv : b0.valid) : WInv b0 (load true b0) := by
   cases hp : b0.hasPtr
   · have := h4 hp
     have hw : b0.wi = 0 := by omega
-    constructor <;> simp [Chain, hw]
-  · cases hc : b0.closed <;> constructor <;> simp [Chain, h2]
+    constructor <;> simp [Chain, hw, this]
+  · cases hc : b0.closed <;> constructor <;> simp [Chain, h2, hc]
 
 theorem exec_WInv (b0 : Buf) (s : St) (i : Instr) (h : WInv b0 s) : WInv b0 (exec s i) := by
-  obtain ⟨hw, hml, hbelow, hri, hwi, hhp, hio1, hlo, hhi, hcap, hlenle, hch⟩ := h
+  obtain ⟨hw, hml, hbelow, hri, hwi, hhp, hcl, hsync, hio1, hlo, hhi, hcap, hlenle, hch⟩ := h
   cases i with
   | rd n => simp only [exec, hw, Bool.not_true, Bool.false_and, Bool.false_eq_true, ↓reduceIte]; constructor <;> assumption
   | skip n => simp only [exec, hw, Bool.not_true, Bool.false_eq_true, ↓reduceIte]; constructor <;> assumption
@@ -226,7 +239,8 @@ theorem exec_WInv (b0 : Buf) (s : St) (i : Instr) (h : WInv b0 s) : WInv b0 (exe
   | limitBegin lim =>
     simp only [exec, hw, ↓reduceIte]
     have hb := limit_bounds s.iop s.io2 lim hhi
-    constructor <;> dsimp only <;> first | assumption | omega | exact hb.1 | exact ⟨hb.2, hch⟩
+    constructor <;> dsimp only <;>
+      first | assumption | omega | exact hb.1 | exact ⟨hb.2, hch⟩ | (intro _; rfl)
   | limitEnd =>
     simp only [exec]
     cases hst : s.stack with
@@ -237,12 +251,27 @@ theorem exec_WInv (b0 : Buf) (s : St) (i : Instr) (h : WInv b0 s) : WInv b0 (exe
       obtain ⟨hc1, hc2⟩ := hch
       have := hc2.le
       simp only [hw, ↓reduceIte]
-      constructor <;> dsimp only <;> first | assumption | omega
+      constructor <;> dsimp only <;> first | assumption | omega | (intro _; rfl)
 
 theorem runI_WInv (b0 : Buf) (is : List Instr) (s : St) (h : WInv b0 s) : WInv b0 (runI s is) := by
   induction is generalizing s with
   | nil => exact h
   | cons i r ih => exact ih _ (exec_WInv b0 s i h)
+
+/-- From the writer invariant to the caller-visible contract. -/
+theorem writer_final (b0 : Buf) (hv : b0.valid) (s : St) (h : WInv b0 s) :
+    (finalSave s).valid ∧ b0.wi ≤ (finalSave s).wi ∧ (finalSave s).ri = b0.ri ∧
+    (∀ i, i < b0.wi → (finalSave s).mem[i]? = b0.mem[i]?) ∧ (finalSave s).len ≤ b0.len := by
+  obtain ⟨hw, hml, hbelow, hri, hwi, hhp, hcl, hsync, hio1, hlo, hhi, hcap, hlenle, hch⟩ := h
+  obtain ⟨h1, h2, h3, h4⟩ := hv
+  unfold finalSave
+  cases hp : b0.hasPtr
+  · have hwi' := hwi (by rw [hhp, hp])
+    simp only [hhp, hp, Bool.not_false, ↓reduceIte, Buf.valid, hri, hwi', hml]
+    have := h4 hp
+    refine ⟨⟨h1, ?_, ?_, fun _ => by omega⟩, Nat.le_refl _, trivial, hbelow, hlenle⟩ <;> omega
+  · simp only [hhp, hp, Bool.not_true, Bool.false_eq_true, ↓reduceIte, hw, Buf.valid, hri, hml]
+    refine ⟨⟨?_, ?_, ?_, ?_⟩, ?_, trivial, hbelow, hlenle⟩ <;> first | omega | simp
 
 /-- **iobuf_inv, destination side.** For a valid destination buffer (open or closed) and every body
 (and every exit point of it) built from the modelled writer operations and `io_limit` blocks:
@@ -252,17 +281,8 @@ theorem iobuf_inv_writer (b0 : Buf) (hv : b0.valid) (is : List Instr) :
     (callIO true b0 is).valid ∧ b0.wi ≤ (callIO true b0 is).wi ∧
     (callIO true b0 is).ri = b0.ri ∧
     (∀ i, i < b0.wi → (callIO true b0 is).mem[i]? = b0.mem[i]?) ∧
-    (callIO true b0 is).len ≤ b0.len := by
-  have h := runI_WInv b0 is _ (load_WInv b0 hv)
-  obtain ⟨hw, hml, hbelow, hri, hwi, hhp, hio1, hlo, hhi, hcap, hlenle, hch⟩ := h
-  obtain ⟨h1, h2, h3, h4⟩ := hv
-  unfold callIO finalSave
-  cases hp : b0.hasPtr
-  · simp only [hhp, hp, Bool.not_false, ↓reduceIte, Buf.valid, hri, hwi, hml]
-    have := h4 hp
-    refine ⟨⟨h1, ?_, ?_, fun _ => by omega⟩, Nat.le_refl _, trivial, hbelow, hlenle⟩ <;> omega
-  · simp only [hhp, hp, Bool.not_true, Bool.false_eq_true, ↓reduceIte, hw, Buf.valid, hri, hml]
-    refine ⟨⟨?_, ?_, ?_, ?_⟩, ?_, trivial, hbelow, hlenle⟩ <;> first | omega | simp
+    (callIO true b0 is).len ≤ b0.len :=
+  writer_final b0 hv _ (runI_WInv b0 is _ (load_WInv b0 hv))
 
 /-! ### `io_limit` restores `io2`, `closed` and the shortened index -/
 
